@@ -5,12 +5,14 @@
 #include <unistd.h>
 #include <fcntl.h>
 #include <time.h>
+#include <signal.h>
+#include <sys/time.h>
 #include "tape.h"
 #include "report.h"
 
 static Report g_rep;
 static std::vector<uint32_t> g_lastfail; static std::string g_lastmsg, g_lastkind;
-static int g_curfd = -1;
+static int g_curfd = -1; static const char *g_outpath = nullptr;
 static long g_shrink_evals = 0; static bool g_failed_once = false;
 
 static void save_current(const std::vector<uint32_t> &w) {
@@ -20,6 +22,19 @@ static void save_current(const std::vector<uint32_t> &w) {
   for (uint32_t x : w) { int n = snprintf(b, sizeof b, "%u\n", x); s.append(b, n); }
   if (ftruncate(g_curfd, 0) != 0) {}
   if (pwrite(g_curfd, s.data(), s.size(), 0) < 0) {}
+}
+
+// Deterministic-ish work budget for pure CPU spins (DESIGN 2.6): a case may use at most VERIF_CASE_CPU_S seconds of *CPU* time
+// (virtual timer: only time this process actually runs counts), thousands of times the cost of any legitimate case.
+static long g_case_cpu_s = 150;
+static void on_vtalrm(int) {
+  static const char m[] = "WORK-BUDGET exceeded: one case used more CPU time than the per-case budget (unbounded loop?)\n";
+  if (write(2, m, sizeof m - 1) < 0) {}
+  _exit(97);
+}
+static void arm_case_timer(bool on) {
+  struct itimerval it; memset(&it, 0, sizeof it); if (on) it.it_value.tv_sec = g_case_cpu_s;
+  setitimer(ITIMER_VIRTUAL, &it, nullptr);
 }
 
 static void dump_map(FILE *f, const char *name, const std::map<std::string, long> &m) {
@@ -44,15 +59,17 @@ static void dump_report(const char *path, bool ok, double wall) {
 }
 
 int main(int argc, char **argv) {
+  if (const char *e = getenv("VERIF_CASE_CPU_S")) g_case_cpu_s = atol(e);
+  signal(SIGVTALRM, on_vtalrm);
   if (argc >= 3 && !strcmp(argv[1], "--replay")) {
     std::vector<uint32_t> w; if (!tape_load(argv[2], w)) { fprintf(stderr, "cannot read %s\n", argv[2]); return 3; }
-    Tape t(w); Report r; bool ok = prop_run(t, r);
+    Tape t(w); Report r; arm_case_timer(true); bool ok = prop_run(t, r); arm_case_timer(false);
     if (ok) { printf("REPLAY property=%s HELD labels:", prop_id()); for (auto &kv : r.labels) printf(" %s=%ld", kv.first.c_str(), kv.second); printf("\n"); for (auto &s : r.samples) printf("  sample: %s\n", s.c_str()); return 0; }
     printf("REPLAY property=%s FAILS kind=%s: %s\n", prop_id(), r.fail_kind.c_str(), r.fail_msg.c_str());
     return r.fail_kind == "harness" ? 2 : 1;
   }
   if (argc >= 4 && !strcmp(argv[1], "--worker")) {
-    g_curfd = open(argv[3], O_CREAT | O_WRONLY | O_TRUNC, 0644);
+    g_curfd = open(argv[3], O_CREAT | O_WRONLY | O_TRUNC, 0644); g_outpath = argv[2];
     int scale = 4; if (const char *e = getenv("VERIF_TAPE_SCALE")) scale = atoi(e);
     struct timespec t0; clock_gettime(CLOCK_MONOTONIC, &t0);
     auto elem = rc::gen::resize(100, rc::gen::oneOf(rc::gen::inRange<uint32_t>(0, 4), rc::gen::inRange<uint32_t>(0, 64),
@@ -71,10 +88,16 @@ int main(int argc, char **argv) {
       Tape t(w); Report local;
       Report *rp = g_failed_once ? &local : &g_rep;   // cases run while shrinking are not counted as coverage
       if (g_failed_once) g_shrink_evals++; else g_rep.evaluations++;
+      arm_case_timer(true);
       bool held = prop_run(t, *rp);
+      arm_case_timer(false);
       if (!held) {
+        bool first = !g_failed_once;
         g_lastfail = w; g_lastmsg = rp->fail_msg; g_lastkind = rp->fail_kind; g_failed_once = true;
         rp->fail_msg.clear();
+        // keep the driver informed even if this process is stopped while shrinking: every improvement is written out at once
+        if (g_outpath) dump_report(g_outpath, false, 0.0);
+        (void)first;
       }
       RC_ASSERT(held);
     });
